@@ -1,4 +1,5 @@
 import Evenio.Proofs.CompLedgerOps
+import Evenio.Proofs.Registry
 /-! # No leak, part 1: `World::drop` runs the destructor of every stored cell
 
 `Logged C S w` — the component registry is `C` and every entry of `S` is in the ledger.  It only grows along
@@ -96,5 +97,33 @@ theorem execOp_drop_logs (w0 : World) :
     refine ⟨rfl, h1, h2, h3, fun e he => h4 e (List.mem_append_left _ he), fun i a ha e he => ?_⟩
     refine h4 e (List.mem_append_right _ (List.mem_flatMap.2 ⟨(i, a), ?_, he⟩))
     exact (Slab.mem_toList_iff _ _ _).2 ha
+
+/-! ## frames of the built-in effects: component types and the ledger -/
+
+theorem tyOf_core (C : SlotMap CompInfo) (c : Nat) : tyOf (C.mapVal CompInfo.core) c = tyOf C c := by
+  unfold tyOf World.compTy SlotMap.getByIndex SlotMap.mapVal
+  simp only [List.getElem?_map]
+  cases C.slots[c]? with
+  | none => rfl
+  | some s =>
+    obtain ⟨g, n, v⟩ := s
+    cases v with
+    | none => simp [Slot.mapVal]
+    | some ci => by_cases hg : g % 2 = 0 <;> simp [Slot.mapVal, hg, CompInfo.core]
+
+theorem compTy_of_core {w w1 : World} (h : w1.compsCore = w.compsCore) (c : Nat) : w1.compTy c = w.compTy c := by
+  rw [compTy_eq_tyOf, compTy_eq_tyOf, ← tyOf_core w1.comps, ← tyOf_core w.comps]
+  unfold World.compsCore at h
+  rw [h]
+
+/-- the ledger is `D` -/
+abbrev CD (D : List (Nat × Nat)) : World → Prop := fun w => w.cdrops = D
+variable {D : List (Nat × Nat)}
+theorem spawnAll_cd : Keeps (CD D) spawnAll := by
+  unfold spawnAll archSpawn handlerRefresh getArch setArch freshEpoch dbgAssert ubErr; io_keeps
+theorem traverseInsert_cd (src c : Nat) : Keeps (CD D) (traverseInsert src c) := by
+  unfold traverseInsert newArch Arch.registerHandler handlerRefresh getArch setArch dbgAssert ubErr; io_keeps
+theorem traverseRemove_cd (src c : Nat) : Keeps (CD D) (traverseRemove src c) := by
+  unfold traverseRemove newArch Arch.registerHandler handlerRefresh getArch setArch dbgAssert ubErr; io_keeps
 
 end Evenio.CompLedger
